@@ -148,8 +148,8 @@ Theorem C04_json_entries : forall L s mode c d c',
   lex_ok L -> save_json L s mode c = Ok (d, c') -> wf_jsonb s c' = true -> 0 < c_next_id c ->
   exists w (Ev Ef : list entry),
     find_all_fs true s c' = Ok w /\ fs_entries d = Ok (Ev ++ Ef) /\
-    map fst Ev = flat_map (fun v => arr_ids c' v ++ [s_xid (v_sofa v)]) (c_views c) /\
-    map fst Ef = map fst (sort_ids (w_all w)).
+    map fst Ev = flat_map (fun p => arr_ids c' p ++ [s_xid (v_sofa (snd p))]) (tviews c) /\
+    map fst Ef = map fst (found_list c' w).
 Proof. exact PropsJson.C04_json_entries. Qed.
 Print Assumptions C04_json_entries.
 
